@@ -171,6 +171,7 @@ class Monitor:
         self.fail = None             # (signature suffix, text)
         self.log = []                # ops seen, for the report
         self.consumes_by = {}        # token key -> number of consume calls
+        self.last_amt = {}           # token key -> amount of its latest consume call
         self.off = False             # a negative amount was requested: outside every theorem's hypothesis
 
     def _bad(self, sig, text):
@@ -186,6 +187,7 @@ class Monitor:
     def on_consume(self, key, amt, granted, wait):
         t = self.clock.now
         self.consumes_by[key] = self.consumes_by.get(key, 0) + 1
+        self.last_amt[key] = amt
         self.log.append(['c', amt, key, fq(t), 'G' if granted else 'R:' + fq(Fraction(wait))])
         if amt < 0:
             self.off = True
@@ -531,6 +533,10 @@ def run_stream_history(rng, mx, thr, n_streams, n_events, use_default_thr=False)
             if mon.consumes_by.get(sid, 0) != before:
                 mon._bad('failed-transfer', f'stream {sid} consumed from the bucket at {float(now)} although its '
                                             f'transfer had already failed')
+        if mon.consumes_by.get(sid, 0) != before and mon.last_amt.get(sid) != seen[sid]:
+            # the bucket must be charged exactly the bytes read since the stream's last grant
+            mon._bad('charge', f'stream {sid} charged the bucket {mon.last_amt.get(sid)} bytes at {float(now)} '
+                               f'but {seen[sid]} bytes were read through it since its last grant')
         settle(sid, msg, events[-1][0])
 
     for sid in range(1, n_streams + 1):
@@ -783,8 +789,10 @@ def run(ctx):
                         'model_answers': m[:300]}, limit=2)
         ctx.cov['near_tie_steps_agreeing'] = near_ties
         ctx.cov.setdefault('near_tie_histories_cut', 0)
-        src_alpha = Fraction(bw.BandwidthRateTracker()._alpha).limit_denominator(10 ** 6)
-        ctx.cov['source_alpha'] = str(src_alpha)
+        try:        # for the record only; the proof is tied to the source through gen/Tables.v
+            ctx.cov['source_alpha'] = str(Fraction(bw.BandwidthRateTracker()._alpha).limit_denominator(10 ** 6))
+        except AttributeError:
+            ctx.cov['source_alpha'] = 'see BW_ALPHA in coq/gen/Tables.v'
     if ctx.broken is not None:
         search_after_break(ctx)
 
